@@ -83,6 +83,11 @@ let () =
     let tr = MatOps.transpose sc a in
     show_strips ~canon:true (Dist.split sc tr cp rp) tr.Crs.ncols);
 
+  (* rank-by-rank model of mpi::transpose, storage order *)
+  reg "transpose_s" (fun t -> let a = t_crs t in let rp = t_ivec t in let cp = t_ivec t in
+    check_parts a rp cp;
+    show_strips ~sizes:false (Dist.dist_transpose sc (Dist.split sc a rp cp) rp) (List.length a.Crs.rows));
+
   reg "product" (fun t -> let a = t_crs t in let rpa = t_ivec t in let cpa = t_ivec t in
     let b = t_crs t in let cpb = t_ivec t in
     check_parts a rpa cpa; check_parts b cpa cpb;
